@@ -73,11 +73,18 @@ func execCdesc(c px.Context, args []sx.Sexp) core.Result {
 	}
 	var e, a px.Type
 	if f := lat.Safely(func() { e, a = c.ParseType(string(eb)), c.ParseType(string(ab)) }); f != nil {
-		return core.Result{Out: "bad-op", Pred: "FAIL harness-bad-op type expression refused: " + firstLine(fmt.Sprint(f))}
+		if lat.Classify(f) != "fault" { // a reported refusal of the type expression (Struct[{a => Like}] cannot be resolved)
+			return core.Result{Out: "refused", Pred: "n/a", Tags: []string{"op:cdesc", "cdesc:refused"}}
+		}
+		return core.Result{Out: "fault", Pred: "FAIL cdesc-parse-fault " + string(eb) + " / " + string(ab) + ": " + firstLine(fmt.Sprint(f)), NonTrivial: true}
 	}
 	tags := []string{"op:cdesc"}
 	var text string
 	if f := lat.Safely(func() { text = px.DescribeMismatch(lat.Subject, e, a) }); f != nil {
+		if cl := lat.Classify(f); cl != "fault" {
+			// a REPORTED error (the default Like type cannot be resolved, …) is pcore's way of refusing, not a crash
+			return core.Result{Out: cl, Pred: "n/a", NonTrivial: true, Tags: append(tags, "cdesc:"+strings.Replace(cl, " ", "-", -1))}
+		}
 		return core.Result{Out: "fault", Pred: "FAIL cdesc-panic describing " + string(ab) + " against " + string(eb) + ": " + firstLine(fmt.Sprint(f)), NonTrivial: true, Tags: tags}
 	}
 	out := "nonempty"
@@ -117,6 +124,70 @@ func execCdesc(c px.Context, args []sx.Sexp) core.Result {
 			tags = append(tags, "clast:"+d.path[n-1].tag)
 		}
 	}
+	return res("ok")
+}
+
+// `@tassert xT V`: px.AssertInstance(lat.Subject, T, V) for a type expression T (second-tier types included) and a value term V.
+// Classes: tassert-fault, tassert-silent-on-noninstance, tassert-raises-on-instance, tassert-no-subject, tassert-dvt-panic.
+func execTassert(c px.Context, args []sx.Sexp) core.Result {
+	bad := core.Result{Out: "bad-op", Pred: "FAIL harness-bad-op tassert"}
+	if len(args) != 2 {
+		return bad
+	}
+	tb, err := args[0].AsBytes()
+	if err != nil {
+		return bad
+	}
+	vt, err := lat.ParseVal(args[1])
+	if err != nil {
+		return bad
+	}
+	var t px.Type
+	var v px.Value
+	if f := lat.Safely(func() {
+		t = c.ParseType(string(tb))
+		v, err = lat.EnvOf(c).BuildVal(vt)
+	}); f != nil || err != nil {
+		if f != nil && lat.Classify(f) != "fault" {
+			return core.Result{Out: "refused", Pred: "n/a", Tags: []string{"op:tassert", "tassert:refused"}}
+		}
+		return core.Result{Out: "bad-op", Pred: "FAIL harness-bad-op tassert: " + firstLine(fmt.Sprint(f, err))}
+	}
+	tags := []string{"op:tassert"}
+	out, detail := "ok", ""
+	if f := lat.Safely(func() { px.AssertInstance(lat.Subject, t, v) }); f != nil {
+		out, detail = lat.Classify(f), firstLine(fmt.Sprint(f))
+	}
+	res := func(pred string) core.Result { return core.Result{Out: out, Pred: pred, NonTrivial: true, Tags: tags} }
+	if f := lat.Safely(func() { px.DetailedValueType(v) }); f != nil {
+		return res("FAIL tassert-dvt-panic " + firstLine(fmt.Sprint(f)))
+	}
+	var inst bool
+	if f := lat.Safely(func() { inst = px.IsInstance(t, v) }); f != nil {
+		if lat.Classify(f) != "fault" { // IsInstance itself refuses (Like): nothing to compare with
+			return core.Result{Out: out, Pred: "n/a", NonTrivial: true, Tags: append(tags, "tassert:isinstance-reported")}
+		}
+		return res("FAIL panic IsInstance")
+	}
+	mismatch := "reported " + string(px.TypeMismatch)
+	switch {
+	case out == "ok" && !inst:
+		return res("FAIL tassert-silent-on-noninstance " + string(tb))
+	case out == mismatch && inst:
+		return res("FAIL tassert-raises-on-instance " + string(tb))
+	case out != "ok" && out != mismatch:
+		return res("FAIL tassert-fault asserting against " + string(tb) + ": " + out + " " + detail)
+	case out == mismatch && !strings.Contains(detail, lat.Subject):
+		// the raised error has nothing to say when the expected type ACCEPTS the detailed type of a value it does not contain
+		// (known findings of C01/C04 on Iterable seen through the assertion): its own class
+		var dt px.Type
+		var text string
+		if f := lat.Safely(func() { dt = px.DetailedValueType(v); text = px.DescribeMismatch(lat.Subject, t, dt) }); f == nil && text == "" && px.IsAssignable(t, dt) {
+			return res("FAIL tassert-empty-description the value is not an instance of " + string(tb) + " but its detailed type " + dt.String() + " is accepted: the mismatch error says nothing")
+		}
+		return res("FAIL tassert-no-subject " + detail)
+	}
+	tags = append(tags, "tans:"+strings.Replace(out, " ", "", -1))
 	return res("ok")
 }
 
@@ -259,6 +330,34 @@ func genCallable(g *core.G) {
 	for _, e := range append(refs, inits...) {
 		for _, a := range others {
 			g.Emit("@cdesc " + hexs(e) + " " + hexs(a))
+		}
+	}
+	// the second-tier types and the parameterless defaults as EXPECTED types (describe walks the expected type with Accept before
+	// anything else), at top level and nested; against themselves, each other and ordinary types; and asserted against values
+	tier2 := []string{"Init", "Init[Integer]", "Init[Integer, 16]", "Init[Timespan, '%H']", "Init[String]", "Callable", "Runtime", "Iterator",
+		"Iterator[Integer]", "Like", "TypeSet", "URI", "URI['http://x']", "SemVer", "SemVer['>=1.0.0']", "SemVerRange", "Timestamp",
+		"Timestamp['2000-01-01']", "TypeReference['X']", "TypeReference", "Unit", "Type", "Iterable", "Object", "Default", "Timespan", "NotUndef",
+		"Sensitive", "Collection", "Deferred", "TypeAlias", "Pcore::AnyType", "Binary", "Regexp", "Optional", "Variant", "Tuple", "Struct", "Enum", "Pattern"}
+	nests2 := []string{"%s", "Type[%s]", "Array[%s]", "Optional[%s]", "Variant[%s, String]", "Struct[{a => %s}]", "Hash[String, %s]", "Tuple[%s]",
+		"NotUndef[%s]", "Array[Optional[%s]]", "Variant[Integer, Struct[{a => Array[%s]}]]"}
+	actuals2 := []string{"Integer", "String", "Undef", "Any", "Init", "Callable", "Type[Integer]", "Array[Integer]", "Tuple[String]", "Struct[{a => Integer}]",
+		"Hash[String, Integer]", "Optional[String]", "Timestamp", "SemVer", "URI", "Type[Init]", "Array[Init]", "Binary", "Default", "Variant[Integer, String]"}
+	vals2 := []string{"undef", "default", "(i 1)", "(s x61)", "(a (i 1))", "(a)", "(h ((s x61) (i 1)))", "(h)", "(t (int 1 2))", "(t any)", "(f (1 0))", "(b t)",
+		"(a (t str))", "(h ((s x61) (t str)))", "(sv (i 1))", "(binv x61)", "(rxv x61)", "(ts 5)", "(o 1)"}
+	for i, e := range tier2 {
+		for j, n := range nests2 {
+			et := fmt.Sprintf(n, e)
+			g.Emit("@cdesc " + hexs(et) + " " + hexs(et))
+			for k, a := range actuals2 {
+				if g.Thorough() || j == 0 || (i+j+k)%4 == 0 {
+					g.Emit("@cdesc " + hexs(et) + " " + hexs(a))
+				}
+			}
+			for k, v := range vals2 {
+				if g.Thorough() || j == 0 || (i+j+k)%4 == 0 {
+					g.Emit("@tassert " + hexs(et) + " " + v)
+				}
+			}
 		}
 	}
 	for l := range lambdaPool {
